@@ -227,7 +227,9 @@ func c35Run(e *Env, p *c35Plan) {
 			}
 		}
 		// the request body of a parsed form is the form written back: it parses to the same form
-		if rb := ctx.Request.Body(); true {
+		// (a body that was streamed has been consumed by the parser: not this rule's subject)
+		if rb := []byte(nil); !p.Stream {
+			rb = ctx.Request.Body()
 			e.Ob(1)
 			f3, err := multipart.NewReader(bytes.NewReader(rb), string(ctx.Request.Header.MultipartFormBoundary())).ReadForm(1 << 30)
 			if err != nil {
